@@ -300,7 +300,7 @@ def run_eta(u, detector, tier):
         o = leaf['result']
         c2, s2 = o['c2'], o['s2']
         u.prove('C11/detyz_to_eta_and_radpix(eta_and_radpix_to_detyz)' + tag, pre,
-                z3.And(C.resid_goal(zc2, [c2 - v('ce'), s2 - v('se'), o['r2'] - v('r')])), replay=None,
+                z3.And(C.resid_goal(zc2, [c2 - v('ce'), s2 - v('se'), o['r2'] - v('r')])), replay=mk_replay_eta_rev(f),
                 detail='(eta,r) -> (dety,detz) -> (eta\',r\') returns the same radius and the same angle modulo 360 deg', sample=True)
 
 
@@ -381,9 +381,30 @@ def mk_replay_eta(f):
     return replay
 
 
+def eta_rev_numeric(eta, r, cy0, cz0):
+    from xfab import detector
+    coor = detector.eta_and_radpix_to_detyz(eta, r, cy0, cz0)
+    e2, r2 = detector.detyz_to_eta_and_radpix(coor, cy0, cz0)
+    d = (float(e2) - eta + 180.0) % 360.0 - 180.0
+    bad = abs(float(r2) - r) > 1e-6 * max(1.0, r) or abs(d) > 1e-6
+    return bool(bad), '(eta=%r, r=%r) -> %s -> (eta=%r, r=%r)' % (eta, r, np.asarray(coor).tolist(), e2, r2)
+
+
+def mk_replay_eta_rev(f):
+    def replay(model):
+        env = C.env_from_model(f, model)
+        eta = math.degrees(math.atan2(env['se'], env['ce'])) % 360.0
+        rec = {'kind': 'eta_rev', 'eta': eta, 'r': env['r'], 'centre': [env['cy0'], env['cz0']]}
+        bad, t = eta_rev_numeric(eta, env['r'], env['cy0'], env['cz0'])
+        return bad, rec, t
+    return replay
+
+
 def replay(rec):
     r = rec['replay']
     k = r.get('kind')
+    if k == 'eta_rev':
+        return eta_rev_numeric(r['eta'], r['r'], r['centre'][0], r['centre'][1])
     if k == 'invalid':
         ok, _, t = replay_invalid(tuple(r['o']))
     elif k == 'image':
